@@ -27,7 +27,7 @@ META = {
              "(file, cut point) pairs. Non-trivial: cut inside the payload (k >= 16); distinct by (file hash, k). "
              "Plus: strace write-trace check (all writes append) and SIGKILL experiment (thorough: 100 kills)."),
     "require": {"quick": ["files", "cuts_in_header", "cuts_in_payload", "cut=len-1", "complete_file_loads",
-                          "trace:writes_checked", "files_near_page_boundary"],
+                          "trace:writes_checked", "files_near_page_boundary", "files_over_1MiB", "open_mode:rb", "open_mode:r+b"],
                 "thorough": ["files", "cuts_in_header", "cuts_in_payload", "cut=len-1", "complete_file_loads",
                              "trace:writes_checked", "kill:runs", "kill:torn_in_payload_rejected"]},
     "exhaustive": {"quick": "every cut point of every generated file", "thorough": "every cut point of every generated file"},
@@ -69,12 +69,22 @@ def small_case(rng):
             return c
 
 
-def load_path(path):
+def load_path(path, mode="rb"):
     from catii.indxio import IndxIO
 
-    with open(path, "rb") as f:
+    with open(path, mode) as f:
         res = IndxIO.load(f)
     return res
+
+
+def big_file_case(rng):
+    """A file of more than 1 MiB whose length is not a multiple of the 4096-byte block."""
+    n_ent = int(rng.integers(2, 6))
+    total = (1 << 20) // 4 + int(rng.integers(2000, 60000))
+    lens = [total // n_ent] * n_ent
+    lens[0] += 3
+    entries = [((i, i + 1), (numpy.arange(ln, dtype=U32) * 3 + i)) for i, ln in enumerate(lens)]
+    return {"arity": 2, "entries": entries, "common": 9, "big_file": True}
 
 
 def judge(ctx, case):
@@ -101,25 +111,42 @@ def judge(ctx, case):
             ctx.violation("complete-file-rejected", "the complete file does not load: %r" % (e,), case)
             return
         ks = range(size - 1, -1, -1)
+        if case.get("big_file"):
+            # a big file: the last 9000 cut points, the header, and a sample in between
+            ctx.count("files_over_1MiB")
+            declared = 16 + int.from_bytes(open(p, "rb").read(16)[8:16], "little")
+            if size != declared:
+                ctx.violation("file-longer-than-declared", "the saved file has %d bytes but its header declares %d: the bytes "
+                              "after the declared end are a torn-file window in which every prefix loads" % (size, declared), case)
+                return
+            ks = sorted(set(range(size - 1, max(size - 9000, 0), -1)) | set(range(0, 64)) |
+                        set(int(x) for x in ctx.rng.integers(64, size, size=300)), reverse=True)
         if case.get("only_k") is not None:
             ks = [int(case["only_k"])]
-            # rewrite for the replay of a single cut point
+        # the torn file reaches load() through whatever file object the caller has: read-only or updatable
+        mode = case.get("open_mode") or ["rb", "r+b"][ctx.counters["files"] % 2]
+        ctx.count("open_mode:" + mode)
         for k in ks:
-            os.truncate(p, k)
+            if os.path.getsize(p) != k:
+                os.truncate(p, k)
+            if os.path.getsize(p) != k:
+                raise RuntimeError("could not truncate")
             ctx.evaluation(h + ":%d" % k, k >= 16)
             ctx.count("cuts_in_payload" if k >= 16 else "cuts_in_header")
             if k == size - 1:
                 ctx.count("cut=len-1")
             try:
-                r = load_path(p)
+                r = load_path(p, mode)
             except Exception as e:
                 ctx.count("rejected_by:" + type(e).__name__)
                 continue
             n = len(r[0])
             del r
+            c2m = mode
             region = "header" if k < 16 else ("index" if k < size // 2 else "rowids")
             c2 = dict(case)
             c2["only_k"] = k
+            c2["open_mode"] = c2m
             ctx.violation("torn-file-accepted:cut-in-%s" % region,
                           "load() returned %d entries for the %d-byte prefix of a %d-byte file" % (n, k, size), c2)
             return
@@ -141,11 +168,13 @@ def run_shard(ctx):
     if kind == "cuts":
         for i in range(ctx.shard["n"]):
             safe_judge(ctx, mod, page_boundary_case(ctx.rng) if i % 10 == 9 else small_case(ctx.rng))
+        if ctx.shard_index < 3 or ctx.tier == "thorough":
+            safe_judge(ctx, mod, big_file_case(ctx.rng))
             if ctx.full():
                 return
     elif kind == "trace":
         for i in range(ctx.shard["n"]):
-            trace_one(ctx, indx.indx_case(ctx.rng, max_entries=300))
+            trace_one(ctx, big_file_case(ctx.rng) if i == 0 else indx.indx_case(ctx.rng, max_entries=300))
     elif kind == "kill":
         kill_experiment(ctx, ctx.shard["n"])
 
@@ -180,7 +209,7 @@ def trace_one(ctx, case):
             f.write(SAVER % {"vf": VERIF_ROOT})
         env = dict(os.environ)
         env.pop("LD_PRELOAD", None)
-        r = subprocess.run(["strace", "-f", "-e", "trace=write,pwrite64,writev,lseek,ftruncate,truncate", "-P", out,
+        r = subprocess.run(["strace", "-f", "-e", "trace=write,pwrite64,writev,lseek,ftruncate,truncate,fallocate", "-P", out,
                             "-o", tr, sys.executable, script, cj, out], env=env, capture_output=True, timeout=600)
         if r.returncode != 0 or not os.path.exists(tr):
             ctx.inconclusive.append("strace run failed: rc=%s %s" % (r.returncode, r.stderr[-400:].decode("utf-8", "replace")))
@@ -189,7 +218,7 @@ def trace_one(ctx, case):
         end = 0
         nwrites = 0
         for line in open(tr):
-            m = re.search(r"\b(write|pwrite64|writev|lseek|ftruncate|truncate)\((.*)\)\s+=\s+(-?\d+)", line)
+            m = re.search(r"\b(write|pwrite64|writev|lseek|ftruncate|truncate|fallocate)\((.*)\)\s+=\s+(-?\d+)", line)
             if not m:
                 continue
             call, args, ret = m.group(1), m.group(2), int(m.group(3))
@@ -213,7 +242,8 @@ def trace_one(ctx, case):
                     return
                 end = max(end, off + ret)
             else:
-                ctx.violation("writer-truncates", "the writer truncates the file: %s" % line.strip()[:200], case)
+                ctx.violation("writer-changes-length-without-data", "the writer truncates / preallocates the file, so a torn "
+                              "file is not a byte prefix of the complete one: %s" % line.strip()[:200], case)
                 return
         if nwrites == 0 or end != os.path.getsize(out):
             ctx.inconclusive.append("write trace incomplete: %d writes, traced end %d, file size %d"
@@ -296,9 +326,15 @@ def kill_experiment(ctx, n):
             try:
                 r = load_path(out)
                 n_loaded = len(r[0])
+                intact = n_loaded == n_ent and all(len(v) == n_ids and int(v[-1]) == (n_ids - 1) * (k[0] % 5 + 1)
+                                                   for k, v in list(r[0].items())[-5:])
                 del r
-                if size == full_size:
+                if size == full_size and intact:
                     outcomes["complete"] = outcomes.get("complete", 0) + 1
+                elif size == full_size:
+                    ctx.violation("torn-file-accepted:kill", "after SIGKILL a file of the complete length loads, but not with the "
+                                  "data that was being saved (length reserved before the data was written?)",
+                                  {"kill_threshold": threshold, "size": size})
                 else:
                     ctx.violation("torn-file-accepted:kill",
                                   "after SIGKILL the %d-byte file (complete: %d bytes) loaded %d entries"
